@@ -98,7 +98,7 @@ def install(g, prop, names, prefixes, profiles_quick, profiles_thorough=None, n_
     g["CORPUS"] = [finish_case(copy.deepcopy(c), {"corpus": True}) for c in corpus]
 
     def compare(c, m, io):
-        if "out" not in io or (impl_only and impl_only(c)):
+        if "out" not in io or (impl_only and impl_only(c)) or c.get("params", {}).get("model_blind"):
             return None          # impl_only: a scenario class outside the model; only the monitors speak
         pm, pi = project(m, names), project(io["out"], names)
         if pm["outs"] != pi["outs"]:
@@ -202,10 +202,14 @@ def _uses_ok(case):
 def _scoped(case):
     ok = [True]
 
+    hacc = []
+
     def expr_vars(e, acc):
         if isinstance(e, dict):
             if "var" in e:
                 acc.append(e["var"])
+            if "handle" in e:
+                hacc.append(e["handle"])
             for k in ("tuple", "list"):
                 if k in e:
                     for x in e[k]:
@@ -254,8 +258,9 @@ def _scoped(case):
             elif op in ("return", "result"):
                 acc = []
                 expr_vars(st["e"], acc)
-                if any(v not in vals for v in acc):
+                if any(v not in vals for v in acc) or any(h not in hands for h in hacc):
                     ok[0] = False
+                del hacc[:]
     for r in case["roots"]:
         body(r, set(), set())
     return ok[0]
